@@ -1,11 +1,11 @@
 package e5path
 
 import (
-	"os"
 	"fmt"
 	"go/constant"
 	"go/token"
 	"go/types"
+	"os"
 	"regexp"
 	"sort"
 	"strings"
@@ -1812,11 +1812,12 @@ func valueEscapesMap(v ssa.Value, mk ssa.Value, depth int) bool {
 
 // IntersectionPerOperand (C05.10, also C06: operand order): the weight of an intersection is the set of types common
 // to all OPERANDS. Found where a type is deleted from a running weight set because another set lacks it:
-//  (a) the set it is compared with is the weight set of an operand, not of a single edge — a type restriction
-//      [a, b] and a tuple to userset over several parent types are drawn with one edge per type, and edge-by-edge
-//      intersection empties the running set among the edges of one operand;
-//  (b) the running set is never refilled because it is empty: emptiness is the verdict "no common type", and a refill
-//      from the next operand makes the verdict depend on the order of the operands.
+//
+//	(a) the set it is compared with is the weight set of an operand, not of a single edge — a type restriction
+//	    [a, b] and a tuple to userset over several parent types are drawn with one edge per type, and edge-by-edge
+//	    intersection empties the running set among the edges of one operand;
+//	(b) the running set is never refilled because it is empty: emptiness is the verdict "no common type", and a refill
+//	    from the next operand makes the verdict depend on the order of the operands.
 func IntersectionPerOperand(p *load.Prog, r *oblig.Report, rule string, funcs []*ssa.Function) {
 	n := 0
 	for _, fn := range funcs {
@@ -2069,4 +2070,157 @@ func RootReachesSomething(p *load.Prog, r *oblig.Report, rule string, funcs []*s
 	if n == 0 {
 		r.Unknown(rule, "root-reaches-something", "-", "no function found that forms a root's own placeholder key and stores the root's weights: anchors no longer resolve")
 	}
+}
+
+// DependantClassified (C05.13): in the function that gives placeholder weights, an edge is filed among the dependants
+// of a cycle root only on a path that established a tuple on the cycle it joins: the verdict of the classifier, a tuple
+// kind of the edge itself, or pending cycles handed back by the recursion through this very edge. An edge that is
+// filed because its (finished) target still carries somebody's placeholder closes a cycle nobody looked at: if that
+// cycle consists of rewrites only the model must be rejected, and it is accepted.
+func DependantClassified(p *load.Prog, r *oblig.Report, rule string, funcs []*ssa.Function) {
+	isDepTable := func(t types.Type) bool {
+		m, ok := t.Underlying().(*types.Map)
+		if !ok {
+			return false
+		}
+		sl, ok := m.Elem().Underlying().(*types.Slice)
+		return ok && strings.HasSuffix(sl.Elem().String(), "WeightedAuthorizationModelEdge")
+	}
+	n := 0
+	for _, fn := range funcs {
+		if placesPlaceholderConst(fn) {
+			if isSmallHelper(fn, fn) && len(callSitesOf(funcs, fn)) > 0 {
+				continue // a helper that only marks the edge: judged where it is called
+			}
+		} else {
+			calls := false
+			for _, b := range fn.Blocks {
+				for _, in := range b.Instrs {
+					if call, ok := in.(*ssa.Call); ok {
+						if cal := call.Common().StaticCallee(); cal != nil && placesPlaceholderConst(cal) && isSmallHelper(cal, fn) {
+							calls = true
+						}
+					}
+				}
+			}
+			if !calls {
+				continue
+			}
+		}
+		ex := &pathx.Explorer{Root: fn, MaxPaths: 30000, Follow: func(c *ssa.Function) bool {
+			for _, q := range c.Params {
+				if sl, ok := q.Type().Underlying().(*types.Slice); ok && strings.HasSuffix(sl.Elem().String(), "WeightedAuthorizationModelEdge") {
+					return false
+				}
+			}
+			return isSmallHelper(c, fn)
+		}}
+		paths := ex.Explore()
+		if ex.Overflow || len(paths) == 0 {
+			r.Unknown(rule, "dependant-classified:"+load.FuncName(fn), p.Pos(fn.Pos()), "paths could not be enumerated")
+			continue
+		}
+		type site struct {
+			pos, label, conds string
+			bad               bool
+		}
+		sites := map[string]*site{}
+		for _, pt := range paths {
+			for _, ev := range pt.Events {
+				mu, ok := ev.Instr.(*ssa.MapUpdate)
+				if !ok || !isDepTable(mu.Map.Type()) {
+					continue
+				}
+				established, adopted := false, false
+				for _, f := range pt.Facts(ev.NCond) {
+					if f.Value && (strings.Contains(f.Atom, ".edgeType == ") || strings.Contains(f.Atom, "EdgeType() == ")) {
+						established = true
+					}
+					if f.Value && (strings.Contains(f.Atom, "HasPrefix(") || strings.Contains(f.Atom, "CutPrefix(")) && strings.Contains(f.Atom, "\"R#\"") {
+						adopted = true
+					}
+					// a loop over the pending cycles that is being executed: index < len(pending)
+					if f.Value && strings.Contains(f.Atom, " < len(") && !strings.Contains(f.Atom, "weights") && !strings.Contains(f.Atom, "edges") {
+						established = true
+					}
+					// pending cycles came back from the recursion: len(x) > 0 / != 0 on a non-map, non-weights value
+					if strings.HasPrefix(f.Atom, "len(") && !strings.Contains(f.Atom, "weights") {
+						if (strings.HasSuffix(f.Atom, " > 0") && f.Value) || (strings.HasSuffix(f.Atom, " == 0") && !f.Value) {
+							established = true
+						}
+					}
+					t, val := pt.Resolve(f.Cond.T), f.Cond.Branch
+					for {
+						u, ok := t.V.(*ssa.UnOp)
+						if !ok || u.Op != token.NOT {
+							break
+						}
+						t, val = pt.Resolve(t.Sub(u.X)), !val
+					}
+					if call, ok := t.V.(*ssa.Call); ok && val {
+						if cal := call.Common().StaticCallee(); cal != nil && cal.Pkg == fn.Pkg {
+							for _, a := range call.Common().Args {
+								if sl, ok := a.Type().Underlying().(*types.Slice); ok && strings.HasSuffix(sl.Elem().String(), "WeightedAuthorizationModelEdge") {
+									established = true
+								}
+							}
+						}
+					}
+				}
+				label := "site"
+				if adopted {
+					label = "adopted-pending-reference"
+				}
+				key := label + "@" + p.Pos(mu.Pos())
+				s := sites[key]
+				if s == nil {
+					s = &site{pos: p.Pos(mu.Pos()), label: label}
+					sites[key] = s
+				}
+				if !established {
+					s.bad = true
+					s.conds = factList(pt.Facts(ev.NCond))
+				}
+				if os.Getenv("VERIF_PH_DEBUG") != "" {
+					fmt.Fprintln(os.Stderr, "DEP", p.Pos(mu.Pos()), established, factList(pt.Facts(ev.NCond)))
+				}
+			}
+		}
+		var keys []string
+		for k := range sites {
+			keys = append(keys, k)
+		}
+		sort.Strings(keys)
+		idx := map[string]int{}
+		for _, k := range keys {
+			s := sites[k]
+			n++
+			idx[s.label]++
+			construct := "dependant-classified:" + fn.Name() + ":" + s.label
+			if idx[s.label] > 1 {
+				construct += fmt.Sprintf("#%d", idx[s.label])
+			}
+			if s.bad {
+				r.Bad(rule, construct, s.pos, "an edge is filed among the dependants of a cycle root on a path that established no tuple on the cycle it joins (conditions: "+s.conds+"): the edge reaches a finished node that still carries a placeholder, and the cycle it closes through that node is never classified; if it consists of rewrites only the model is accepted although it must be rejected")
+			} else {
+				r.OK(rule, construct, s.pos, "path-enumeration", "filed only after the classifier's verdict, a tuple kind of the edge, or pending cycles handed back by the recursion")
+			}
+		}
+	}
+	if n == 0 {
+		r.Unknown(rule, "dependant-classified", "-", "no registration of a dependant found in the function that gives placeholder weights: anchors no longer resolve")
+	}
+}
+
+func placesPlaceholderConst(f *ssa.Function) bool {
+	for _, b := range f.Blocks {
+		for _, in := range b.Instrs {
+			if mu, ok := in.(*ssa.MapUpdate); ok && isPlaceholderKey(mu.Key) {
+				if _, isC := mu.Value.(*ssa.Const); isC {
+					return true
+				}
+			}
+		}
+	}
+	return false
 }
